@@ -413,6 +413,7 @@ func runC08(env *Env) {
 	}
 	// stored results are visible to every later task: a property bound to a variable is resolved anew for every request
 	propertyPerRequest(env, rep, "C08-results", "C08-results")
+	threeTokensOneTask(env, rep, "C08-first-wins", 4)
 	env.WriteCases(rep, "_modes", "Corr.C08corr", "list nat * nat * nat * nat", citems, "c08_modes_mismatches")
 	env.WriteReport(rep)
 }
@@ -453,4 +454,70 @@ func c08ModeOracle(h []int, req, errs, out int) string {
 		return fmt.Sprintf("observed requests=%d errors=%d outcome=%d, expected requests=%d errors=%d outcome=%d", req, errs, out, expReq, expErr, expOut)
 	}
 	return ""
+}
+
+// threeTokensOneTask: three tokens pass through one task node, entering and leaving in a non-LIFO order (two inside,
+// the older one leaves, a third enters while the younger still waits): every request is answered once and every token
+// goes on. Shared by C08 (every request decided by its own answer), C10 (the activity harness) and C17.
+func threeTokensOneTask(env *Env, rep *Report, key string, rounds int) {
+	for r := 0; r < rounds && !rep.Saturated(); r++ {
+		cs := fmt.Sprintf("three tokens through one task: two inside, the older leaves, a third enters, then the other two leave (round %d)", r)
+		env.Current(cs)
+		p := &Prog{}
+		p.Node("start", "start")
+		p.Node("par", "F")
+		p.Node("xor", "M")
+		p.Node("task", "T")
+		p.Node("end", "end")
+		p.Flow("start", "F", "")
+		for i := 1; i <= 3; i++ {
+			g := fmt.Sprintf("G%d", i)
+			p.Node("task", g)
+			p.Flow("F", g, "")
+			p.Flow(g, "M", "")
+		}
+		p.Flow("M", "T", "")
+		p.Flow("T", "end", "")
+		defs, err := ParseDefs(p.XML(""))
+		must(err)
+		in, err := StartInst(defs, InstOpt{})
+		must(err)
+		rep.Evaluations++
+		rep.Nontrivial++
+		rep.Count("three_tokens_one_task")
+		problem := ""
+		step := func(task string, wantT int) {
+			if problem != "" {
+				return
+			}
+			if !in.Answer(task, tmoStep) {
+				problem = task + " could not be answered"
+				return
+			}
+			if !in.WaitUntil(tmoStep, func(l []Ev) bool { return countEv(l, "task", "T") >= wantT }) {
+				problem = fmt.Sprintf("after answering %s: T requested %d times, expected %d", task, countEv(in.Log(), "task", "T"), wantT)
+			}
+		}
+		step("G1", 1)
+		step("G2", 2)
+		step("T", 2) // the older request
+		if problem == "" && !in.WaitUntil(tmoStep, func(l []Ev) bool { return countEv(l, "visit", "end") >= 1 }) {
+			problem = "the first token did not reach the end event after its answer"
+		}
+		step("G3", 3)
+		step("T", 3)
+		step("T", 3)
+		if problem == "" && !in.WaitCease(tmoStep) {
+			problem = fmt.Sprintf("every request answered once, the instance did not complete: the end event was reached %d times, expected 3", countEv(in.Log(), "visit", "end"))
+		}
+		if problem == "" {
+			if e := countEv(in.Log(), "visit", "end"); e != 3 {
+				problem = fmt.Sprintf("the end event was reached %d times, expected 3", e)
+			}
+		}
+		if problem != "" {
+			rep.Violate(key, cs, problem+"; log: "+logString(in.Log()))
+		}
+		in.Close()
+	}
 }
